@@ -10,8 +10,13 @@ from vf.gen import model, wrappers
 # ---- HTML ------------------------------------------------------------------------------------------------------
 def _h_inlines(inl, doc, xhtml):
     out = []
-    for i in inl:
+    rem = doc.get("_rem")
+    for idx, i in enumerate(inl):
         k = i["k"]
+        if rem and idx:
+            # a removable element between two inline pieces of one paragraph: its content must vanish and the text after it must stay where it is
+            body = {"script": "var q = 'ZXREM01';", "style": ".ZXREM01 { color: red }", "noscript": "ZXREM01"}[rem]
+            out.append(f"<{rem}>{body}</{rem}>")
         if k == "t":
             t = escape(i["tok"])
             out.append({0: t, 1: f"<b>{t}</b>", 2: f'<span style="color:red"><i>{t}</i></span>', 3: f"<b>{escape(i['tok'][:3])}</b>{escape(i['tok'][3:])}"}[i.get("sty", 0) % 4])
@@ -53,7 +58,12 @@ def _h_blocks(blocks, doc, xhtml):
             rows = []
             for ri, row in enumerate(b["rows"]):
                 ct = "th" if ri < b.get("hdr", 0) else "td"
-                rows.append("<tr>" + "".join(f"<{ct}>{_h_blocks(c['blocks'], doc, xhtml)}</{ct}>" for c in row) + "</tr>")
+                def cell(c):
+                    inner = _h_blocks(c["blocks"], doc, xhtml)
+                    if not inner and xhtml and doc.get("_selfclose"):
+                        return f"<{ct}/>"          # XML serialisers write an empty cell as a self-closing element
+                    return f"<{ct}>{inner}</{ct}>"
+                rows.append("<tr>" + "".join(cell(c) for c in row) + "</tr>")
             hdr = b.get("hdr", 0)
             body = (f"<thead>{''.join(rows[:hdr])}</thead>" if hdr else "") + f"<tbody>{''.join(rows[hdr:])}</tbody>"
             out.append(f"<table>{body}</table>\n")
@@ -80,7 +90,9 @@ def html_of_blocks(blocks, doc, *, xhtml=False, title="T", head_extra="") -> str
     return f'<!DOCTYPE html>\n<html lang="en"><head><meta charset="utf-8"><title>{ttl}</title>{metas}{head_extra}</head>\n<body>\n{body}</body></html>\n'
 
 
-def render_html(doc, **kw) -> bytes:
+def render_html(doc, *, opts=None, **kw) -> bytes:
+    if (opts or {}).get("inline_removed"):
+        doc = dict(doc, _rem=opts["inline_removed"])
     blocks = [b for u in doc["units"] for b in u["blocks"]]
     hdr = ""
     if doc.get("header") is not None:
@@ -88,14 +100,18 @@ def render_html(doc, **kw) -> bytes:
     return html_of_blocks(blocks, doc, head_extra=hdr).encode("utf-8")
 
 
-def render_mhtml(doc, *, cte="quoted-printable", **kw) -> bytes:
-    return wrappers.mhtml_bytes(render_html(doc).decode("utf-8"), cte=cte)
+def render_mhtml(doc, *, cte="quoted-printable", opts=None, **kw) -> bytes:
+    return wrappers.mhtml_bytes(render_html(doc, opts=opts).decode("utf-8"), cte=cte)
 
 
 def render_epub(doc, *, images=None, opts=None, **kw) -> bytes:
     opts = opts or {}
     chapters = []
     doc = dict(doc, _images=images or [])
+    if opts.get("inline_removed"):
+        doc["_rem"] = opts["inline_removed"]
+    if opts.get("selfclose_empty_cells"):
+        doc["_selfclose"] = True
     for i, u in enumerate(doc["units"]):
         chapters.append((f"text/ch{i + 1}.xhtml", html_of_blocks(u["blocks"], doc, xhtml=True, title=u.get("name") or f"Chapter {i + 1}")))
     p = doc.get("props") or {}
@@ -183,6 +199,8 @@ def render_pdf(doc, *, images=None, opts=None, **kw) -> bytes:
             if b["k"] == "img":
                 im = images[b["id"]]
                 d = {"data": im["data"], "w": im["w"], "h": im["h"]}
+                if opts.get("flate_images"):
+                    d["flate"] = True
                 if opts.get("share_images"):
                     d["share_key"] = f"img{b['id']}"
                 imgs.append(d)
@@ -210,7 +228,8 @@ def render_eml(doc, **kw) -> bytes:
     return _message(doc["units"][0], 0, doc).as_bytes(policy=policy.SMTP)
 
 
-def render_mbox(doc, *, crlf=False, **kw) -> bytes:
+def render_mbox(doc, *, crlf=False, opts=None, **kw) -> bytes:
+    crlf = crlf or bool((opts or {}).get("crlf"))
     from email import policy
     out = []
     for i, u in enumerate(doc["units"]):
